@@ -722,6 +722,9 @@ impl<'a> UdpNhcRepr {
                 checksum::data(packet.payload()),
             ]);
 
+            // A checksum that computes to zero is transmitted as all-ones (see `emit`).
+            let chk_sum = if chk_sum == 0 { 0xffff } else { chk_sum };
+
             if let Some(checksum) = packet.checksum()
                 && chk_sum != checksum
             {
